@@ -87,6 +87,9 @@ func (c *pathCtx) realBody(name string) bool {
 	if c.opts == nil {
 		return false
 	}
+	if i := strings.LastIndex(name, "."); i >= 0 && strings.HasPrefix(name[i+1:], "verif") {
+		return false // harness primitives are always intercepted
+	}
 	for _, p := range c.opts.RealBodies {
 		if strings.HasPrefix(name, p) {
 			return true
